@@ -162,4 +162,37 @@ theorem firstGnu_none (name : Slice) (hash : Nat) (path : List (Nat × Symbol ×
     simp only [firstGnu, this, Bool.false_eq_true, and_false, if_false]
     exact ih (fun e he => h e (List.mem_cons_of_mem _ he))
 
+/-- the decoded run from a given chain index is unique -/
+theorem GnuChain.unique {t : GnuHashTable} {symtab : Table Symbol} {strtab : Slice} {i : Nat}
+    {p q : List (Nat × Symbol × Slice × Nat)} (hp : GnuChain t symtab strtab i p)
+    (hq : GnuChain t symtab strtab i q) : p = q := by
+  induction hp generalizing q with
+  | atEnd idx h =>
+    cases hq with
+    | atEnd _ _ => rfl
+    | last _ ch sym w hlt _ _ _ _ _ => omega
+    | more _ ch sym w rest hlt _ _ _ _ _ _ => omega
+  | last idx ch sym w hlt hc hstop hadd hs hn =>
+    cases hq with
+    | atEnd _ h => omega
+    | last _ ch' sym' w' _ hc' _ _ hs' hn' =>
+      rw [hc] at hc'; injection hc' with hc'; subst hc'
+      rw [hs] at hs'; injection hs' with hs'; subst hs'
+      rw [hn] at hn'; injection hn' with hn'; subst hn'
+      rfl
+    | more _ ch' sym' w' rest' _ hc' hstop' _ _ _ _ =>
+      rw [hc] at hc'; injection hc' with hc'; subst hc'
+      exact absurd hstop' hstop
+  | more idx ch sym w rest hlt hc hstop hadd hs hn hr ih =>
+    cases hq with
+    | atEnd _ h => omega
+    | last _ ch' sym' w' _ hc' hstop' _ _ _ =>
+      rw [hc] at hc'; injection hc' with hc'; subst hc'
+      exact absurd hstop hstop'
+    | more _ ch' sym' w' rest' _ hc' _ _ hs' hn' hr' =>
+      rw [hc] at hc'; injection hc' with hc'; subst hc'
+      rw [hs] at hs'; injection hs' with hs'; subst hs'
+      rw [hn] at hn'; injection hn' with hn'; subst hn'
+      rw [ih hr']
+
 end Elf
